@@ -411,6 +411,24 @@ func Contents(names []string) []Content {
 			return J{"$ref": AuxA + "#/definitions/cnode"}
 		}).Aux = true
 	}
+	add("recursiveAuxWithCaseDifferentLeaves", "recursive-aux", func(b *BundleSpec, s int) J {
+		// a recursive auxiliary definition referring to two $ref-free definitions of its own file whose names differ only by case
+		b.Add(AuxA, P(J{"type": "object", "properties": J{"next": J{"$ref": "#/definitions/cdTree"}, "upper": J{"$ref": "#/definitions/Leaf"}, "lower": J{"$ref": "#/definitions/leaf"}}}, "definitions", "cdTree"),
+			P(simpleObj("upperLeaf"), "definitions", "Leaf"), P(J{"type": "string", "description": "lower leaf"}, "definitions", "leaf"))
+		b.Cyclic = true
+		return J{"$ref": AuxA + "#/definitions/cdTree"}
+	}).Aux = true
+	add("collidingImportFourReferrers", "collide", func(b *BundleSpec, s int) J {
+		// one colliding import referred to from four places at different depths
+		b.Add(RootFile, P(simpleObj("rootMulti"), "definitions", "multi"),
+			P(J{"type": "object", "properties": J{"gammaThree": J{"type": "object", "properties": J{"deep": J{"$ref": AuxA + "#/definitions/multi"}}}}}, "definitions", "zHolder"),
+			P(J{"type": "array", "items": J{"$ref": AuxA + "#/definitions/multi"}}, "definitions", "aList"))
+		b.use("multi")
+		b.use("zHolder")
+		b.use("aList")
+		b.Add(AuxA, P(simpleObj("auxMulti"), "definitions", "multi"))
+		return J{"type": "object", "properties": J{"alphaOne": J{"$ref": AuxA + "#/definitions/multi"}, "betaTwo": J{"$ref": AuxA + "#/definitions/multi"}}}
+	}).Aux = true
 	for _, rec := range []bool{true, false} {
 		rec := rec
 		label := "auxDiamondColliding"
@@ -463,6 +481,13 @@ func Contents(names []string) []Content {
 		b.Cyclic = true
 		return J{"$ref": AuxA + "#/definitions/ping"}
 	}).Aux = true
+	add("forestOfTrees", "recursive-container", func(b *BundleSpec, s int) J {
+		// a container of a $ref to a container of itself: the cycle is entered through a $ref that is not part of it
+		b.Add(RootFile, P(J{"type": "array", "items": LocalRef("treeMap")}, "definitions", "forestArr"),
+			P(J{"type": "object", "additionalProperties": LocalRef("treeMap")}, "definitions", "treeMap"))
+		b.Cyclic = true
+		return J{"type": "array", "items": LocalRef("forestArr")}
+	})
 	add("mapOfItself", "recursive-container", func(b *BundleSpec, s int) J {
 		b.Add(RootFile, P(J{"type": "object", "additionalProperties": LocalRef("mapSelf")}, "definitions", "mapSelf"))
 		b.Cyclic = true
